@@ -4,13 +4,15 @@
    Rust                                   here
    syn::UseTree::{Path,Name,Rename,Glob,Group}   utree
    UseMacro { mac_name, imp_path: Vec }   um  (mod_name is the constant "interthread",
-                                               mac_path the constant interthread::<mac_name>)
-   UseMacro::file_self_use                fsu
+                                               mac_path the constant interthread::<mac_name>;
+                                               imp_path is kept as two lists: um_imp, the one-segment names `n`,
+                                               and um_alias, the crate aliases `it` of the two-segment paths `it::<mac_name>`)
+   UseMacro::file_self_use                fsu  (returned path, pushed names, remaining tree)  +  aliases  (pushed alias paths)
    UseMacro::update                       update
    UseMacro::is                           is_mac      (syn::Path equality: leading colon + segments)
    UseMacro::exclude                      exclude     (in Text/Example.v, over attributes)
 
-   State of the code modelled: with the fixes dup-attr / abs-path / glob-both / reimport / late-import applied.
+   State of the code modelled: with the fixes dup-attr / abs-path / glob-both / reimport / late-import / crate-alias applied.
    Identifiers are strings; a `syn::Path` of an attribute is (leading `::`?, segments). *)
 From Coq Require Import List String Bool Permutation Lia PeanoNat.
 Import ListNotations.
@@ -122,6 +124,18 @@ Proof.
   { induction ts as [|x r IH]; simpl; auto. rewrite IH. reflexivity. }
   rewrite E. reflexivity.
 Qed.
+
+(* the crate under another name (the NEW arm of `Rename` in file_self_use): `use interthread as it;`, `use interthread::{self as it};`.
+   The arm pushes the path `it::<mac>` onto imp_path and returns (None, Some tree): `fsu` above is unchanged by it (same
+   returned path, same names, same remaining tree); `aliases` collects the `it`s pushed during the call.  As in `fsu`, a `Path`
+   recurses only below the segment `interthread`, a `Group` visits every element, and the test `ident == mac_name` comes first. *)
+Fixpoint aliases (mac : string) (t : utree) : list string :=
+  match t with
+  | UPath id s => if id =? INTERTHREAD then aliases mac s else []
+  | URename id al => if id =? mac then [] else if (id =? INTERTHREAD) || (id =? "self") then [al] else []
+  | UGroup ts => flat_map (aliases mac) ts
+  | _ => []
+  end.
 
 (* ---- leaves: what a use tree imports ------------------------------------------------------ *)
 
@@ -361,9 +375,9 @@ Qed.
 
 Record apath : Type := { lead : bool; segs : list string }.       (* attribute path: leading `::`, segments *)
 
-Record um : Type := { um_mac : string; um_imp : list string }.
+Record um : Type := { um_mac : string; um_imp : list string; um_alias : list string }.
 
-Definition um_new (mac : string) : um := {| um_mac := mac; um_imp := [] |}.
+Definition um_new (mac : string) : um := {| um_mac := mac; um_imp := []; um_alias := [] |}.
 
 Fixpoint list_eqb (a b : list string) : bool :=
   match a, b with
@@ -380,20 +394,28 @@ Proof.
 Qed.
 
 (* `::interthread::mac` : the leading colon is dropped and the path compared with mac_path only;
-   otherwise mac_path or any of the remembered imports *)
+   otherwise mac_path or any of the remembered imports: the names `n` and the alias paths `it::mac` *)
 Definition is_mac (u : um) (p : apath) : bool :=
+  if lead p then list_eqb [INTERTHREAD; um_mac u] (segs p)
+  else list_eqb [INTERTHREAD; um_mac u] (segs p) || existsb (fun n => list_eqb [n] (segs p)) (um_imp u)
+       || existsb (fun a => list_eqb [a; um_mac u] (segs p)) (um_alias u).
+
+(* `is` before the crate-alias repair: the alias paths were not remembered *)
+Definition is_mac_old (u : um) (p : apath) : bool :=
   if lead p then list_eqb [INTERTHREAD; um_mac u] (segs p)
   else list_eqb [INTERTHREAD; um_mac u] (segs p) || existsb (fun n => list_eqb [n] (segs p)) (um_imp u).
 
 Definition update (u : um) (t : utree) : um * option utree :=
   match fsu (um_mac u) t with
-  | (Some p, ps, r) => ({| um_mac := um_mac u; um_imp := um_imp u ++ ps ++ [p] |}, r)
-  | (None, ps, r) => ({| um_mac := um_mac u; um_imp := um_imp u ++ ps |}, r)
+  | (Some p, ps, r) => ({| um_mac := um_mac u; um_imp := um_imp u ++ ps ++ [p]; um_alias := um_alias u ++ aliases (um_mac u) t |}, r)
+  | (None, ps, r) => ({| um_mac := um_mac u; um_imp := um_imp u ++ ps; um_alias := um_alias u ++ aliases (um_mac u) t |}, r)
   end.
 
 Definition upd_names (mac : string) (t : utree) : list string := names (fsu mac t).
 
-Lemma update_eq : forall u t, update u t = ({| um_mac := um_mac u; um_imp := um_imp u ++ upd_names (um_mac u) t |}, snd (fsu (um_mac u) t)).
+Lemma update_eq : forall u t,
+  update u t = ({| um_mac := um_mac u; um_imp := um_imp u ++ upd_names (um_mac u) t; um_alias := um_alias u ++ aliases (um_mac u) t |},
+                snd (fsu (um_mac u) t)).
 Proof. intros u t. unfold update, upd_names, names. destruct (fsu (um_mac u) t) as [[[p|] ps] r]; simpl; rewrite ?app_nil_r; reflexivity. Qed.
 
 (* the import state after the `use` items seen so far *)
@@ -401,11 +423,13 @@ Definition track (mac : string) (uses : list utree) : um :=
   fold_left (fun u t => fst (update u t)) uses (um_new mac).
 
 Lemma track_gen : forall uses u,
-  fold_left (fun u t => fst (update u t)) uses u = {| um_mac := um_mac u; um_imp := um_imp u ++ flat_map (upd_names (um_mac u)) uses |}.
+  fold_left (fun u t => fst (update u t)) uses u =
+  {| um_mac := um_mac u; um_imp := um_imp u ++ flat_map (upd_names (um_mac u)) uses;
+     um_alias := um_alias u ++ flat_map (aliases (um_mac u)) uses |}.
 Proof.
   induction uses as [|t r IH]; intros u; simpl.
-  - rewrite app_nil_r. destruct u; reflexivity.
-  - rewrite IH, update_eq. simpl. rewrite app_assoc. reflexivity.
+  - rewrite !app_nil_r. destruct u; reflexivity.
+  - rewrite IH, update_eq. simpl. rewrite !app_assoc. reflexivity.
 Qed.
 
 Lemma upd_names_flat : forall mac uses, seteq (flat_map (upd_names mac) uses) (vis_binds mac (flat_map leaves uses)).
@@ -421,24 +445,54 @@ Theorem track_all : forall mac uses,
   um_mac (track mac uses) = mac /\ seteq (um_imp (track mac uses)) (vis_binds mac (flat_map leaves uses)).
 Proof. intros mac uses. unfold track. rewrite track_gen. simpl. split; auto. apply upd_names_flat. Qed.
 
+(* every alias of the crate met by file_self_use is remembered, and nothing else *)
+Theorem track_alias : forall mac uses, um_alias (track mac uses) = flat_map (aliases mac) uses.
+Proof. intros mac uses. unfold track. rewrite track_gen. reflexivity. Qed.
+
 Lemma existsb_seteq : forall (f : string -> bool) a b, incl a b -> existsb f a = true -> existsb f b = true.
 Proof. intros f a b I H. apply existsb_exists in H. destruct H as (x & X & F). apply existsb_exists. exists x. auto. Qed.
 
 (* exactly which attribute paths `is` accepts after the `use` items seen so far *)
 Theorem is_exact : forall mac uses p,
   is_mac (track mac uses) p = true <->
+  segs p = [INTERTHREAD; mac] \/ (lead p = false /\ exists n, In n (vis_binds mac (flat_map leaves uses)) /\ segs p = [n])
+  \/ (lead p = false /\ exists a, In a (flat_map (aliases mac) uses) /\ segs p = [a; mac]).
+Proof.
+  intros mac uses p. destruct (track_all mac uses) as [M [I1 I2]]. pose proof (track_alias mac uses) as TA.
+  unfold is_mac. rewrite M, TA. split.
+  - destruct (lead p).
+    + intros H. left. apply list_eqb_eq in H. auto.
+    + intros H. apply orb_true_iff in H. destruct H as [H|H]; [apply orb_true_iff in H; destruct H as [H|H]|].
+      * left. apply list_eqb_eq in H. auto.
+      * right. left. split; auto. apply existsb_exists in H. destruct H as (n & In_ & E). exists n. split; auto. apply list_eqb_eq in E. auto.
+      * right. right. split; auto. apply existsb_exists in H. destruct H as (a & Ia & E). exists a. split; auto. apply list_eqb_eq in E. auto.
+  - intros [H|[(L & n & In_ & H)|(L & a & Ia & H)]].
+    + assert (R : list_eqb [INTERTHREAD; mac] (segs p) = true) by (apply list_eqb_eq; auto).
+      rewrite R. destruct (lead p); reflexivity.
+    + rewrite L. apply orb_true_iff. left. apply orb_true_iff. right. apply existsb_exists. exists n. split; auto. rewrite H. apply list_eqb_eq. reflexivity.
+    + rewrite L. apply orb_true_iff. right. apply existsb_exists. exists a. split; auto. rewrite H. apply list_eqb_eq. reflexivity.
+Qed.
+
+(* the old `is` ignores the aliases: exactly the first two alternatives *)
+Theorem is_old_exact : forall mac uses p,
+  is_mac_old (track mac uses) p = true <->
   segs p = [INTERTHREAD; mac] \/ (lead p = false /\ exists n, In n (vis_binds mac (flat_map leaves uses)) /\ segs p = [n]).
 Proof.
-  intros mac uses p. destruct (track_all mac uses) as [M [I1 I2]]. unfold is_mac. rewrite M. split.
+  intros mac uses p. destruct (track_all mac uses) as [M [I1 I2]]. unfold is_mac_old. rewrite M. split.
   - destruct (lead p).
     + intros H. left. apply list_eqb_eq in H. auto.
     + intros H. apply orb_true_iff in H. destruct H as [H|H].
       * left. apply list_eqb_eq in H. auto.
       * right. split; auto. apply existsb_exists in H. destruct H as (n & In_ & E). exists n. split; auto. apply list_eqb_eq in E. auto.
   - intros [H|(L & n & In_ & H)].
-    + rewrite H. simpl. rewrite !String.eqb_refl. simpl. destruct (lead p); reflexivity.
+    + assert (R : list_eqb [INTERTHREAD; mac] (segs p) = true) by (apply list_eqb_eq; auto).
+      rewrite R. destruct (lead p); reflexivity.
     + rewrite L. apply orb_true_iff. right. apply existsb_exists. exists n. split; auto. rewrite H. apply list_eqb_eq. reflexivity.
 Qed.
+
+(* the repair only adds accepted paths *)
+Corollary is_mac_old_incl : forall mac uses p, is_mac_old (track mac uses) p = true -> is_mac (track mac uses) p = true.
+Proof. intros mac uses p H. apply is_exact. apply is_old_exact in H. destruct H as [H|H]; [left|right; left]; exact H. Qed.
 
 (* ---- what the paths SHOULD denote (Rust name resolution restricted to the documented forms) -------- *)
 
@@ -502,26 +556,102 @@ Proof.
     + apply IH. exact H2.
 Qed.
 
+(* every alias the code records is a genuine alias of the crate (no top-level `use self as x;`, no
+   `use interthread::{interthread as x}`, no `use interthread::interthread::{self as x}`: none of them is Rust for the crate) *)
+Definition well_aliased (mac : string) (uses : list utree) : bool :=
+  forallb (fun a => mem a (crate_aliases (flat_map leaves uses))) (flat_map (aliases mac) uses).
+
 (* soundness: whatever `is` accepts does denote the macro *)
-Theorem is_sound : forall mac uses p, well_imported mac uses = true ->
+Theorem is_sound : forall mac uses p, well_imported mac uses = true -> well_aliased mac uses = true ->
   is_mac (track mac uses) p = true -> denotes mac uses p = true.
 Proof.
-  intros mac uses p W H. apply is_exact in H. destruct H as [H|(L & n & I & H)]; unfold denotes; rewrite H.
+  intros mac uses p W WA H. apply is_exact in H. destruct H as [H|[(L & n & I & H)|(L & a & I & H)]]; unfold denotes; rewrite H.
   - rewrite !String.eqb_refl. reflexivity.
   - rewrite L. simpl. apply mem_In. rewrite <- (vis_binds_sub mac _ W). exact I.
+  - rewrite L, String.eqb_refl. cbn [negb andb]. apply orb_true_iff. right.
+    unfold well_aliased in WA. rewrite forallb_forall in WA. apply WA. exact I.
 Qed.
 
-(* the only inputs on which recognition is known to be incomplete: the first segment is an alias of the crate *)
+(* the paths whose first segment is an alias of the crate: before the crate-alias repair recognition was incomplete on them *)
 Definition alias_path (p : apath) : bool := match segs p with [c; _] => negb (c =? INTERTHREAD) | _ => false end.
 
-(* full-strength statement (FALSE, see is_crate_alias_refuted):
-     forall mac uses p, denotes mac uses p = true -> is_mac (track mac uses) p = true *)
-Theorem is_complete_guarded : forall mac uses p,
+(* ---- completeness: every alias of the crate is recorded -------------------------------------------- *)
+
+(* a leaf directly below `interthread::` (or at top level) that renames the crate or `self` *)
+Definition crate_alias0 (pl : pleaf) : option string :=
+  match pl with
+  | ([], LRename id al) => if (id =? INTERTHREAD) || (id =? "self") then Some al else None
+  | _ => None
+  end.
+
+Lemma aliases_alias0 : forall mac t a, (mac =? INTERTHREAD) = false -> (mac =? "self") = false ->
+  In a (flat_map (fun pl => opt_list (crate_alias0 pl)) (leaves t)) -> In a (aliases mac t).
+Proof.
+  intros mac t a NI NS. induction t as [id s IH | id | id al | | ts IH] using utree_ind'; intros H.
+  - (* path: every leaf has a non-empty prefix *) exfalso. cbn [leaves] in H. apply in_flat_map in H. destruct H as (pl & Ipl & Ia).
+    apply in_map_iff in Ipl. destruct Ipl as ([q l] & E & _). subst pl. unfold push in Ia. cbn [fst snd crate_alias0 opt_list] in Ia. exact Ia.
+  - cbn in H. destruct H as [].
+  - cbn [leaves flat_map crate_alias0] in H. rewrite app_nil_r in H. cbn [aliases].
+    destruct ((id =? INTERTHREAD) || (id =? "self")) eqn:E; [|destruct H].
+    destruct (id =? mac) eqn:Em; [|exact H]. exfalso. apply String.eqb_eq in Em. subst id. rewrite NI, NS in E. discriminate.
+  - cbn in H. destruct H as [].
+  - cbn [leaves aliases] in *. induction IH as [|x r Hx Hr IHr]; cbn [flat_map] in *; [exact H|].
+    rewrite flat_map_app' in H. apply in_app_or in H. apply in_or_app. destruct H as [H|H]; [left; apply Hx; exact H|right; apply IHr; exact H].
+Qed.
+
+(* key lemma: when the macro is called neither `interthread` nor `self`, file_self_use records every alias of the crate *)
+Lemma aliases_complete_tree : forall mac t a, (mac =? INTERTHREAD) = false -> (mac =? "self") = false ->
+  In a (crate_aliases (leaves t)) -> In a (aliases mac t).
+Proof.
+  intros mac t a NI NS. unfold crate_aliases. induction t as [id s IH | id | id al | | ts IH] using utree_ind'; intros H.
+  - cbn [leaves] in H. apply in_flat_map in H. destruct H as (pl & Ipl & Ia).
+    apply in_map_iff in Ipl. destruct Ipl as ([q l] & E & Iq). subst pl. unfold push in Ia. cbn [fst snd] in Ia.
+    destruct q as [|c q]; [|destruct l; destruct Ia]. destruct l as [id'|id' al'|]; try destruct Ia. cbn [crate_alias] in Ia.
+    destruct (id =? INTERTHREAD) eqn:Ei; [|destruct Ia]. destruct (id' =? "self") eqn:Es; [|destruct Ia].
+    cbn [andb opt_list] in Ia. cbn [aliases]. rewrite Ei. apply (aliases_alias0 mac s a NI NS).
+    apply in_flat_map. exists ([], LRename id' al'). split; [exact Iq|]. cbn [crate_alias0]. rewrite Es, orb_true_r. exact Ia.
+  - cbn in H. destruct H as [].
+  - cbn [leaves flat_map crate_alias] in H. rewrite app_nil_r in H. cbn [aliases].
+    destruct (id =? INTERTHREAD) eqn:Ei; [|destruct H]. cbn [orb].
+    destruct (id =? mac) eqn:Em; [|exact H]. exfalso. apply String.eqb_eq in Em. subst id. rewrite NI in Ei. discriminate.
+  - cbn in H. destruct H as [].
+  - cbn [leaves aliases] in *. induction IH as [|x r Hx Hr IHr]; cbn [flat_map] in *; [exact H|].
+    rewrite flat_map_app' in H. apply in_app_or in H. apply in_or_app. destruct H as [H|H]; [left; apply Hx; exact H|right; apply IHr; exact H].
+Qed.
+
+Lemma aliases_complete : forall mac uses a, (mac =? INTERTHREAD) = false -> (mac =? "self") = false ->
+  In a (crate_aliases (flat_map leaves uses)) -> In a (flat_map (aliases mac) uses).
+Proof.
+  intros mac uses a NI NS. unfold crate_aliases. induction uses as [|t r IH]; cbn [flat_map]; intros H; [exact H|].
+  rewrite flat_map_app' in H. apply in_app_or in H. apply in_or_app. destruct H as [H|H].
+  - left. apply aliases_complete_tree; assumption.
+  - right. apply IH. exact H.
+Qed.
+
+(* completeness (was FALSE, see is_crate_alias_old_refuted): whatever denotes the macro is accepted.
+   The two inequations are needed: with mac = "interthread", `use interthread as it;` is taken for an import of the macro
+   (the test `ident == mac_name` comes first) and `it::interthread` is not remembered. *)
+Theorem is_complete : forall mac uses p, (mac =? INTERTHREAD) = false -> (mac =? "self") = false ->
+  denotes mac uses p = true -> is_mac (track mac uses) p = true.
+Proof.
+  intros mac uses p NI NS D. apply is_exact. unfold denotes in D.
+  destruct (segs p) as [|a [|b [|c r]]] eqn:S; try discriminate.
+  - right. left. apply andb_true_iff in D. destruct D as [L D]. apply negb_true_iff in L. split; auto.
+    exists a. split; auto. apply mac_names_incl. apply mem_In. exact D.
+  - apply andb_true_iff in D. destruct D as [Eb D]. apply String.eqb_eq in Eb. subst b.
+    apply orb_true_iff in D. destruct D as [D|D].
+    + left. apply String.eqb_eq in D. subst a. reflexivity.
+    + right. right. apply andb_true_iff in D. destruct D as [L D]. apply negb_true_iff in L. split; auto.
+      exists a. split; auto. apply aliases_complete; auto. apply mem_In. exact D.
+Qed.
+
+(* the former guarded statement (no hypothesis on mac): a corollary of is_exact alone *)
+Corollary is_complete_guarded : forall mac uses p,
   alias_path p = false -> denotes mac uses p = true -> is_mac (track mac uses) p = true.
 Proof.
   intros mac uses p K D. apply is_exact. unfold denotes in D. unfold alias_path in K.
   destruct (segs p) as [|a [|b [|c r]]] eqn:S; try discriminate.
-  - right. apply andb_true_iff in D. destruct D as [L D]. apply negb_true_iff in L. split; auto.
+  - right. left. apply andb_true_iff in D. destruct D as [L D]. apply negb_true_iff in L. split; auto.
     exists a. split; auto. apply mac_names_incl. apply mem_In. exact D.
   - left. apply negb_false_iff in K. apply String.eqb_eq in K. subst a.
     apply andb_true_iff in D. destruct D as [D _]. apply String.eqb_eq in D. subst b. reflexivity.
@@ -537,24 +667,69 @@ Proof. intros. apply is_exact. left. reflexivity. Qed.
    `use` items they stand (was: is_reimport_refuted) *)
 Theorem is_every_import : forall mac uses n, In n (mac_names mac (flat_map leaves uses)) ->
   is_mac (track mac uses) (ap false [n]) = true.
-Proof. intros mac uses n I. apply is_exact. right. split; auto. exists n. split; auto. apply mac_names_incl. exact I. Qed.
+Proof. intros mac uses n I. apply is_exact. right. left. split; auto. exists n. split; auto. apply mac_names_incl. exact I. Qed.
 
-(* use interthread as it;  #[it::actor] *)
-Lemma is_crate_alias_refuted : exists mac uses p, well_imported mac uses = true /\ alias_path p = true /\
-  denotes mac uses p = true /\ is_mac (track mac uses) p = false.
+(* every alias of the crate is recognised in front of the macro name *)
+Theorem is_every_alias : forall mac uses a, (mac =? INTERTHREAD) = false -> (mac =? "self") = false ->
+  In a (crate_aliases (flat_map leaves uses)) -> is_mac (track mac uses) (ap false [a; mac]) = true.
+Proof. intros mac uses a NI NS I. apply is_exact. right. right. split; auto. exists a. split; auto. apply aliases_complete; assumption. Qed.
+
+(* use interthread as it;  #[it::actor]      use interthread::{self as it};  #[it::actor]    (was: is_crate_alias_refuted)
+   recognised; `it::family` is not (in the actor pass), nor is `::it::actor` *)
+Example is_crate_alias :
+  let p := ap false ["it"; "actor"] in
+  let uses1 := [URename "interthread" "it"] in
+  let uses2 := [UPath "interthread" (UGroup [URename "self" "it"])] in
+  alias_path p = true
+  /\ (well_imported "actor" uses1 = true /\ well_aliased "actor" uses1 = true /\ denotes "actor" uses1 p = true
+      /\ is_mac (track "actor" uses1) p = true
+      /\ is_mac (track "actor" uses1) (ap false ["it"; "family"]) = false
+      /\ is_mac (track "actor" uses1) (ap true ["it"; "actor"]) = false
+      /\ snd (update (um_new "actor") (URename "interthread" "it")) = Some (URename "interthread" "it"))
+  /\ (well_imported "actor" uses2 = true /\ well_aliased "actor" uses2 = true /\ denotes "actor" uses2 p = true
+      /\ is_mac (track "actor" uses2) p = true
+      /\ is_mac (track "actor" uses2) (ap false ["it"; "family"]) = false
+      /\ is_mac (track "actor" uses2) (ap true ["it"; "actor"]) = false
+      /\ snd (update (um_new "actor") (UPath "interthread" (UGroup [URename "self" "it"]))) = Some (UPath "interthread" (UGroup [URename "self" "it"]))).
+Proof. vm_compute. repeat split. Qed.
+
+(* before the repair: use interthread as it;  #[it::actor]  was not recognised (the former is_crate_alias_refuted, same witness) *)
+Lemma is_crate_alias_old_refuted : exists mac uses p, well_imported mac uses = true /\ alias_path p = true /\
+  denotes mac uses p = true /\ is_mac_old (track mac uses) p = false.
 Proof. exists "actor", [URename "interthread" "it"], (ap false ["it"; "actor"]). vm_compute. auto. Qed.
+
+(* the alias guard of is_sound is needed: the code also records aliases that are not Rust for the crate *)
+Example well_aliased_needed :
+  well_imported "actor" [URename "self" "x"] = true /\ well_aliased "actor" [URename "self" "x"] = false
+  /\ is_mac (track "actor" [URename "self" "x"]) (ap false ["x"; "actor"]) = true
+  /\ denotes "actor" [URename "self" "x"] (ap false ["x"; "actor"]) = false.
+Proof. vm_compute. repeat split. Qed.
 
 (* the guards are satisfiable on non-trivial inputs:
    use std::{fmt, io::*}; use interthread::{family, {actor as act, example}, actor, *};   #[act] #[actor] #[::interthread::actor] *)
 Example is_complete_example :
   let uses := [UPath "std" (UGroup [UName "fmt"; UPath "io" UGlob]);
                UPath "interthread" (UGroup [UName "family"; UGroup [URename "actor" "act"; UName "example"]; UName "actor"; UGlob])] in
-  well_imported "actor" uses = true
+  well_imported "actor" uses = true /\ well_aliased "actor" uses = true
   /\ alias_path (ap false ["act"]) = false /\ denotes "actor" uses (ap false ["act"]) = true /\ is_mac (track "actor" uses) (ap false ["act"]) = true
   /\ is_mac (track "actor" uses) (ap false ["actor"]) = true /\ is_mac (track "actor" uses) (ap true ["interthread"; "actor"]) = true
   /\ is_mac (track "actor" uses) (ap false ["family"]) = false
   /\ snd (update (um_new "actor") (nth 1 uses UGlob)) = Some (UPath "interthread" (UGroup [UName "family"; UGroup [UName "example"]; UGlob])).
-Proof. vm_compute. auto 10. Qed.
+Proof. vm_compute. repeat split. Qed.
+
+(* ... also with aliases of the crate among the imports:
+   use std::fmt as f; use interthread::{self as it, actor as act, family}; use interthread as it2;   #[it::actor] #[it2::actor] #[act] *)
+Example is_complete_alias_example :
+  let uses := [UPath "std" (URename "fmt" "f");
+               UPath "interthread" (UGroup [URename "self" "it"; URename "actor" "act"; UName "family"]);
+               URename "interthread" "it2"] in
+  well_imported "actor" uses = true /\ well_aliased "actor" uses = true
+  /\ flat_map (aliases "actor") uses = ["it"; "it2"] /\ crate_aliases (flat_map leaves uses) = ["it"; "it2"]
+  /\ is_mac (track "actor" uses) (ap false ["it"; "actor"]) = true /\ is_mac (track "actor" uses) (ap false ["it2"; "actor"]) = true
+  /\ is_mac (track "actor" uses) (ap false ["act"]) = true /\ is_mac (track "actor" uses) (ap false ["f"; "actor"]) = false
+  /\ is_mac (track "family" uses) (ap false ["it2"; "family"]) = true /\ is_mac (track "family" uses) (ap false ["it"; "actor"]) = false
+  /\ snd (update (um_new "actor") (nth 1 uses UGlob)) = Some (UPath "interthread" (UGroup [URename "self" "it"; UName "family"])).
+Proof. vm_compute. repeat split. Qed.
 
 (* printing, for the correspondence with the real `file_self_use` *)
 Fixpoint show_tree (t : utree) : string :=
